@@ -567,7 +567,7 @@ def _parse_config_params(toml):
             _params["initial_olivine_fabric"] = getattr(
                 _core.MineralFabric, "olivine_" + _params["initial_olivine_fabric"]
             )
-    except AttributeError:
+    except (AttributeError, TypeError):
         raise _err.ConfigError(
             f"invalid initial olivine fabric: {_params['initial_olivine_fabric']}"
         ) from None
